@@ -394,7 +394,7 @@ pub fn run(sc: &Scenario) -> Observed {
     let settle = match sc.ending {
         Ending::Flush => timing::settle(sc.max_failures(), sc.max_stalls()),
         // after a drop nothing but the already scripted back-off stands between the queue and the collector
-        _ => Duration::from_millis(10_000 + 3 * timing::backoff_total_ms(sc.max_failures())),
+        _ => Duration::from_millis(6_000 + 3 * timing::backoff_total_ms(sc.max_failures())),
     };
     match sc.ending {
         Ending::Flush => {
@@ -466,13 +466,7 @@ fn decision_label(d: &Decision, transport: Transport) -> &'static str {
     match d {
         Decision::Ack => "ack",
         Decision::AckThenClose => "ack-then-close",
-        Decision::Status(s) if transport == Transport::Grpc => {
-            if *s < 500 {
-                "grpc-http-status-4xx"
-            } else {
-                "grpc-http-status-5xx"
-            }
-        }
+        Decision::Status(_) if transport == Transport::Grpc => "grpc-http-status",
         Decision::Status(s) if *s < 500 => "status-4xx",
         Decision::Status(_) => "status-5xx",
         Decision::GrpcStatus(_) => "grpc-status",
@@ -569,8 +563,15 @@ pub fn judge(sc: &Scenario, obs: &Observed, cx: &mut Cx) -> Result<Result<(), St
     }
 
     if obs.outage_flush == Some(true) {
+        // On gRPC an endpoint that answers a bare HTTP 503 is the "HTTP error status on the gRPC
+        // transport" failure class: emit taking it for success is that finding, not a new one.
+        let sig = if sc.wire == Wire::Grpc && matches!(sc.outage, Some((_, Outage::Unavailable))) {
+            "failed-request-not-resent/grpc-http-status"
+        } else {
+            "flush-reported-success-during-outage"
+        };
         cx.fail(
-            "flush-reported-success-during-outage",
+            sig,
             format!("blocking_flush returned true although the endpoint of {:?} is down, its events are unacknowledged and its retry budget is far from exhausted", sc.outage),
         )?;
     }
@@ -599,6 +600,9 @@ pub fn judge(sc: &Scenario, obs: &Observed, cx: &mut Cx) -> Result<Result<(), St
     }
 
     let after_drop = sc.ending != Ending::Flush;
+    // events already reported as undelivered (only reachable past a listed known finding): later
+    // clauses do not report the same loss again under another name
+    let mut reported: BTreeSet<u64> = BTreeSet::new();
     for s in &healthy {
         for id in obs.emitted.get(s).into_iter().flatten() {
             if acked.contains_key(id) {
@@ -616,12 +620,13 @@ pub fn judge(sc: &Scenario, obs: &Observed, cx: &mut Cx) -> Result<Result<(), St
                 // body was read cannot be attributed)
                 "event-never-sent".to_string()
             };
-            let sig = if after_drop { format!("{what}/after-emitter-dropped") } else { what };
+            // one signature for everything abandoned at drop, whatever state it was in
+            let sig = if after_drop { format!("accepted-event-abandoned-after-emitter-dropped") } else { what.clone() };
             let outage = if sc.outage.is_some() { " while another signal's endpoint is down" } else { "" };
             cx.fail(
                 sig,
                 format!(
-                    "{s:?} event {id} was accepted by emit but is in no acknowledged request{outage} ({}); requests of this signal: {}",
+                    "{s:?} event {id} was accepted by emit but is in no acknowledged request{outage} ({}; {what}); requests of this signal: {}",
                     match obs.flush {
                         Some(true) => "blocking_flush returned true".to_string(),
                         Some(false) => "blocking_flush timed out and the bounded wait after it expired".to_string(),
@@ -630,6 +635,7 @@ pub fn judge(sc: &Scenario, obs: &Observed, cx: &mut Cx) -> Result<Result<(), St
                     describe(log, *s)
                 ),
             )?;
+            reported.insert(*id);
         }
     }
 
@@ -677,7 +683,7 @@ pub fn judge(sc: &Scenario, obs: &Observed, cx: &mut Cx) -> Result<Result<(), St
         let sig = r.signal.unwrap();
         let later: Vec<&RequestLog> = log[i + 1..].iter().filter(|q| q.signal == Some(sig)).collect();
         let ids = ids_of(r);
-        if !ids.is_empty() && !after_drop && !later.iter().any(|q| ids_of(q) == ids) {
+        if !ids.is_empty() && !after_drop && ids.is_disjoint(&reported) && !later.iter().any(|q| ids_of(q) == ids) {
             // (when the events then stay undelivered this has already been reported above; reaching
             // this point means they were delivered, but not by sending the failed request again)
             cx.fail(
